@@ -619,7 +619,7 @@ func TestC09(t *testing.T) {
 		}
 
 		// (c) the same operation on the frame and on its rebuild gives Equal results
-		op := rapid.SampledFrom([]string{"filter", "sort", "slice", "select", "apply", "eval", "distinct", "aggregate"}).Draw(t, "metaop")
+		op := rapid.SampledFrom([]string{"filter", "sort", "sort-ties", "slice", "select", "apply", "eval", "distinct", "aggregate"}).Draw(t, "metaop")
 		var ra, rb qframe.QFrame
 		canon := func(q qframe.QFrame) qframe.QFrame { return q }
 		switch op {
@@ -631,6 +631,12 @@ func TestC09(t *testing.T) {
 		case "sort":
 			os := append(genOrders(t, tab, "id"), hx.Order{Col: "id"})
 			what += "op sort " + hx.OrdersString(os)
+			ra, rb = d.QF.Sort(hx.BuildOrders(os)...), rebuild.Sort(hx.BuildOrders(os)...)
+		case "sort-ties":
+			// keys with ties: C03 leaves the order of tied rows open, but two Equal frames - the same rows in the same
+			// logical order, whatever their physical layout - must still come out Equal ("under every operation")
+			os := genOrders(t, tab, "id")
+			what += "op sort (ties left open) " + hx.OrdersString(os)
 			ra, rb = d.QF.Sort(hx.BuildOrders(os)...), rebuild.Sort(hx.BuildOrders(os)...)
 		case "slice":
 			a := rapid.IntRange(0, tab.N()).Draw(t, "a")
